@@ -8,7 +8,7 @@ import os
 import re
 import shutil
 
-from extract import LostAnchor, Source, find_fn
+from extract import LostAnchor, Source, find_fn, extract_part, parse_kv
 
 VERIF = os.path.dirname(os.path.dirname(os.path.abspath(__file__)))
 MODULES = ["random", "tensor", "activation", "objective", "optimizer", "convolution", "deconvolution",
@@ -46,6 +46,26 @@ def split_weaves(h):
     return "\n".join(out), weaves
 
 
+def expand_regions(h, repo, module):
+    """`//@region fn=NAME impl=T src=FN part="region:/a/../b/" sig="(&self, ..) -> R" [tail="expr"]`
+    becomes `impl T { pub fn NAME SIG { <verbatim region of T::FN> TAIL } }` (a region of the real function emitted as a
+    function of its own; body verbatim)."""
+    out, drops = [], []
+    for ln in h.split("\n"):
+        st = ln.strip()
+        if not st.startswith("//@region "):
+            out.append(ln)
+            continue
+        kv = parse_kv(st[len("//@region "):])
+        text, first, desc = extract_part(repo, dict(file="src/%s.rs" % module, impl=kv.get("impl"), fn=kv["src"], part=kv["part"]))
+        body = "pub fn %s%s {\n%s\n%s\n}" % (kv["fn"], kv["sig"], text, kv.get("tail", ""))
+        if kv.get("impl"):
+            body = "impl %s {\n%s\n}" % (kv["impl"], body)
+        out.append(body)
+        drops.append("mirror: region `%s` emitted verbatim as fn %s%s (tail `%s` added)" % (desc, kv["fn"], kv["sig"], kv.get("tail", "")))
+    return "\n".join(out), drops
+
+
 def weave_attrs(text, path, impl, fn, attrs):
     import tempfile
     with tempfile.NamedTemporaryFile("w", suffix=".rs", delete=False) as tf:
@@ -62,7 +82,7 @@ def weave_attrs(text, path, impl, fn, attrs):
     return text[:ls] + "".join(indent + a + "\n" for a in attrs) + text[ls:]
 
 
-def make_crate(repo, dest, harness_files, extra_lib=""):
+def make_crate(repo, dest, harness_files, extra_lib="", native_files=None):
     """harness_files: {module name: [paths of contracts/kani/*.rs to append to that module's mirror]}"""
     drops = []
     src = os.path.join(dest, "src")
@@ -86,6 +106,8 @@ def make_crate(repo, dest, harness_files, extra_lib=""):
             with open(hf) as f:
                 h = f.read()
             h, weaves = split_weaves(h)
+            h, rdrops = expand_regions(h, repo, m)
+            drops += rdrops
             for impl, fn, attrs in weaves:
                 text = weave_attrs(text, p, impl, fn, attrs)
                 drops.append("mirror: %d contract attribute line(s) woven before `%s::%s` in %s.rs (attributes only; body untouched)"
@@ -93,6 +115,14 @@ def make_crate(repo, dest, harness_files, extra_lib=""):
             name = "verif_" + os.path.splitext(os.path.basename(hf))[0]
             text += "\n\n// ===== appended by tools/mirror.py from %s =====\n" % os.path.relpath(hf, VERIF)
             text += "#[cfg(any(kani, verif_replay))]\n#[allow(unused, non_snake_case)]\npub mod %s {\n    use super::*;\n" % name
+            text += h
+            text += "\n}\n"
+        for nf in (native_files or {}).get(m, []):
+            with open(nf) as f:
+                h = f.read()
+            name = "vnative_" + os.path.splitext(os.path.basename(nf))[0]
+            text += "\n\n// ===== appended by tools/mirror.py from %s =====\n" % os.path.relpath(nf, VERIF)
+            text += "#[cfg(verif_replay)]\n#[allow(unused, non_snake_case)]\npub mod %s {\n    use super::*;\n" % name
             text += h
             text += "\n}\n"
         with open(os.path.join(src, m + ".rs"), "w") as f:
@@ -107,6 +137,19 @@ def make_crate(repo, dest, harness_files, extra_lib=""):
     with open(os.path.join(dest, "Cargo.toml"), "w") as f:
         f.write('[package]\nname = "neurons"\nversion = "0.0.0"\nedition = "2021"\n\n[lib]\npath = "src/lib.rs"\n\n'
                 '[dependencies]\n\n[lints.rust]\nunexpected_cfgs = { level = "allow" }\n\n[workspace]\n')
+    if native_files:
+        os.makedirs(os.path.join(src, "bin"), exist_ok=True)
+        calls = []
+        for m, fs in native_files.items():
+            for nf in fs:
+                calls.append("        .or_else(|| neurons::%s::vnative_%s::dispatch(cmd, name, arg))" % (m, os.path.splitext(os.path.basename(nf))[0]))
+        with open(os.path.join(src, "bin", "replay.rs"), "w") as f:
+            f.write("// generated by tools/mirror.py: native replay / search driver over the mirrored real code\n"
+                    "fn main() {\n    let a: Vec<String> = std::env::args().collect();\n"
+                    "    if a.len() < 3 { eprintln!(\"usage: replay search|run <name> [input]\"); std::process::exit(2); }\n"
+                    "    let (cmd, name, arg) = (a[1].as_str(), a[2].as_str(), a.get(3).map(|s| s.as_str()).unwrap_or(\"\"));\n"
+                    "    let r: Option<String> = None\n" + "\n".join(calls) + ";\n"
+                    "    println!(\"{}\", r.unwrap_or_else(|| \"{\\\"error\\\":\\\"unknown search name\\\"}\".to_string()));\n}\n")
     os.makedirs(os.path.join(dest, ".cargo"), exist_ok=True)
     with open(os.path.join(dest, ".cargo", "config.toml"), "w") as f:
         f.write("[net]\noffline = true\n")
